@@ -209,6 +209,7 @@ Record ctx_facts (c : ctx_table) : Prop := {
   f_lower : forall n, In n (accepted c) -> has_upper n = false;
   f_memo_tbl : ct_memo_tbl c = ct_registers c;
   f_iter_all : ct_iter_all c = NList (ct_registers c);
+  f_regs_direct : ct_regs_direct c = None \/ ct_regs_direct c = Some (NList (ct_registers c));
   f_iter_some : ct_iter_some c = NSet;
   f_next : ct_next_slice c = 0 /\ ct_next_set c = 0 /\ plain_var (ct_next_val c) v_ga = true;
   f_md_regs : plain_var (ct_md_regs_val c) v_mga = true;
@@ -249,6 +250,7 @@ Proof.
   apply app_eq_nil in H. destruct H as [H13 H].
   apply app_eq_nil in H. destruct H as [G1 H].
   apply app_eq_nil in H. destruct H as [G2 H].
+  apply app_eq_nil in H. destruct H as [G2b H].
   apply app_eq_nil in H. destruct H as [G3 H].
   apply app_eq_nil in H. destruct H as [G4 H].
   apply app_eq_nil in H. destruct H as [G5 H].
@@ -285,6 +287,9 @@ Proof.
   - apply strs_eqb_eq. exact (diag_nil _ _ _ _ G1 _ (or_introl eq_refl)).
   - pose proof (diag_nil _ _ _ _ G2 _ (or_introl eq_refl)) as X. cbv beta in X. unfold src_is_list in X.
     destruct (ct_iter_all c) as [l|]; [|discriminate]. apply strs_eqb_eq in X. rewrite X. reflexivity.
+  - pose proof (diag_nil _ _ _ _ G2b _ (or_introl eq_refl)) as X. cbv beta in X.
+    destruct (ct_regs_direct c) as [[l|]|]; [right | discriminate | left; reflexivity].
+    unfold src_is_list in X. apply strs_eqb_eq in X. rewrite X. reflexivity.
   - pose proof (diag_nil _ _ _ _ G3 _ (or_introl eq_refl)) as X. cbv beta in X.
     destruct (ct_iter_some c); [discriminate | reflexivity].
   - pose proof (diag_nil _ _ _ _ G4 _ (or_introl eq_refl)) as X. cbv beta in X.
@@ -677,6 +682,12 @@ Qed.
 Lemma cpu_iter_init_eq : forall v,
   cpu_iter_init c v = match v with VAll => (KSlice, ct_registers c) | VSome s => (KSet, s) end.
 Proof. intros [|s]; unfold cpu_iter_init; [rewrite (f_iter_all c F) | rewrite (f_iter_some c F)]; reflexivity. Qed.
+Lemma cpu_registers_eq : forall rf, cpu_registers c rf = mapM (named c rf) (ct_registers c).
+Proof.
+  intro rf. unfold cpu_registers. destruct (f_regs_direct c F) as [E|E]; rewrite E.
+  - unfold cpu_valid_registers. rewrite cpu_iter_init_eq. cbn [snd]. apply cpu_iter_collect_mapM.
+  - cbn [src_state snd]. apply cpu_iter_collect_mapM.
+Qed.
 Lemma cpu_valid_registers_mapM : forall rf v,
   cpu_valid_registers c rf v = mapM (named c rf) (match v with VAll => ct_registers c | VSome s => s end).
 Proof.
